@@ -48,14 +48,19 @@ def large_corpus(full):
 def runner(case):
     return dict((n, m) for n, m, _ in SOURCES)[case['_src']].run_recorded
 
-def one_run(case, fault_at):
+def one_run(case, fault_at, fault_class=None):
+    layout.FAULT_CLASS[0] = fault_class
     try:
         runner(case)({k: v for k, v in case.items() if k != '_src'}, fault_at)
         raised = None
     except layout.InjectedFault:
         raised = 'fault'
+    except StopIteration:
+        raised = 'fault' if fault_class is StopIteration else 'StopIteration'
     except Exception as e:
         raised = type(e).__name__
+    finally:
+        layout.FAULT_CLASS[0] = None
     rec, f = layout.LAST.get('rec'), layout.LAST.get('file')
     return raised, rec, f
 
@@ -80,6 +85,18 @@ def analyse(case, max_positions=None):
         content = f2.getvalue() if f2 is not None else ''
         if len(content) != 0 or any(e[0] == 'write' for e in rec2.events):
             fails.append('fault at evaluation %d of %d (%s): %d characters of a partial table were written' % (k, n, layout.FN_NAMES.get(_kth_fn(rec, k), '?'), len(content))); break
+    # the failure of a function may be ANY exception - also one the iteration machinery gives a meaning to (StopIteration raised by a
+    # function that reads its values from an exhausted stream): it propagates and nothing is written
+    if not fails and not case.get('_large'):
+        for k in sorted(set([0, n // 2, n - 1])):
+            if k < 0 or k >= n: continue
+            raised, rec2, f2 = one_run(case, k, StopIteration)
+            content = f2.getvalue() if f2 is not None else ''
+            if raised != 'fault' and not (isinstance(raised, str) and raised == 'RuntimeError'):
+                fails.append('a function failing with StopIteration at evaluation %d of %d: writer %s' % (k, n, 'returned normally' if raised is None else 'raised ' + str(raised)))
+            if len(content) != 0 or any(e[0] == 'write' for e in rec2.events):
+                fails.append('a function failing with StopIteration at evaluation %d of %d (%s): %d characters were written' % (k, n, layout.FN_NAMES.get(_kth_fn(rec, k), '?'), len(content)))
+            if fails: break
     return fails
 
 def _kth_fn(rec, k):
